@@ -47,7 +47,8 @@ Definition parts_of (o : wop) : option (string * string * list string * N) :=
   | _ => None
   end.
 Definition part_dropped (s : wst) (db coll p : string) (ts : N) : bool :=
-  match tbl_state (parti s) (part_key p coll db) ts with Dropped => true | _ => false end.
+  negb (String.eqb coll "") && negb (String.eqb p "")
+  && match tbl_state (parti s) (part_key p coll db) ts with Dropped => true | _ => false end.
 
 Fixpoint check_steps (e : env) (s : wst) (ops : list (wop * bool)) (obs : list step_obs) : bool :=
   match ops, obs with
